@@ -7,6 +7,7 @@ package main
 // is neither is reported: an index nobody can bound is how an evaluator panic gets in.
 
 import (
+	"os"
 	"fmt"
 	"go/token"
 	"go/types"
@@ -408,7 +409,10 @@ func (bp *boundProver) calleeLenLB(call *ssa.Call, idx int, depth int) int64 {
 }
 
 // ltLen: i < len(x) (strict) or i <= len(x) where block `at` executes.
-func (bp *boundProver) ltLen(i, x ssa.Value, at *ssa.BasicBlock, strict bool, depth int, seen map[ssa.Value]bool) bool {
+func (bp *boundProver) ltLen(i, x ssa.Value, at *ssa.BasicBlock, strict bool, depth int, seen map[ssa.Value]bool) (res bool) {
+	if os.Getenv("LT_DEBUG") != "" && at.Parent().Name() == os.Getenv("LT_DEBUG") {
+		defer func() { fmt.Fprintf(os.Stderr, "%*sltLen(%s=%s, %s=%s, b%d, strict=%v) = %v\n", depth*2, "", i.Name(), i.String(), x.Name(), x.String(), at.Index, strict, res) }()
+	}
 	if depth > 5 {
 		return false
 	}
@@ -434,10 +438,15 @@ func (bp *boundProver) ltLen(i, x ssa.Value, at *ssa.BasicBlock, strict bool, de
 			return false
 		}
 		var other ssa.Value
+		sameConst := func(a, b ssa.Value) bool {
+			ka, ok1 := constInt(a)
+			kb, ok2 := constInt(b)
+			return ok1 && ok2 && ka == kb
+		}
 		switch {
-		case bp.sameLocFrom(bin.X, v):
+		case bp.sameLocFrom(bin.X, v) || sameConst(bin.X, v):
 			other = bin.Y
-		case bp.sameLocFrom(bin.Y, v):
+		case bp.sameLocFrom(bin.Y, v) || sameConst(bin.Y, v):
 			other = bin.X
 			op = flipOp[op]
 		default:
@@ -450,11 +459,9 @@ func (bp *boundProver) ltLen(i, x ssa.Value, at *ssa.BasicBlock, strict bool, de
 		off, isLen := bp.lenMinus(other, x)
 		if !isLen {
 			// i < j and j <= len(x)
-			if (op == token.LSS || op == token.LEQ) && !seen[other] {
-				seen[other] = true
-				ok := bp.ltLen(other, x, cc.If.Block(), !(op == token.LSS) && strict, depth+1, seen)
-				delete(seen, other)
-				return ok
+			if (op == token.LSS || op == token.LEQ) && !seen[stripConvert(other)] {
+				// (the recursion is bounded by depth; `seen` marks the values being expanded structurally)
+				return bp.ltLen(other, x, cc.If.Block(), !(op == token.LSS) && strict, depth+1, seen)
 			}
 			return false
 		}
@@ -527,6 +534,11 @@ func (bp *boundProver) ltLen(i, x ssa.Value, at *ssa.BasicBlock, strict bool, de
 	case *ssa.Call:
 		if bi, ok := v.Common().Value.(*ssa.Builtin); ok && bi.Name() == "min" {
 			for _, a := range v.Common().Args {
+				if off, isLen := bp.lenMinus(a, x); isLen {
+					if (strict && off >= 1) || (!strict && off >= 0) {
+						return true
+					}
+				}
 				if bp.ltLen(a, x, at, strict, depth+1, seen) {
 					return true
 				}
